@@ -77,6 +77,11 @@ def replay(case) -> dict:
         kw["tilt"] = (-60.0, 60.0)
         if cfg["tilt"] == "rotq":
             quat = Rotation.from_quat([1, 1, 0, 3]).as_quat()
+    # intensity scale of the data (exact powers of two: nothing but a scale-dependent threshold can change the outcome)
+    amp = (1.0, 2.0**-10, 2.0**8)[(sum(cfg["d"]) // 25 + sum(cfg["lim"]) // 50 + len(cfg["tilt"]) + cfg["cutoff"]) % 3]
+    if amp != 1.0:
+        tmpl = (tmpl * np.float32(amp)).astype(np.float32)
+        sub = (sub * np.float32(amp)).astype(np.float32)
     # argument forms: the sub-volume / template as float64 or as a C-contiguous copy, the limits as a list
     form = (sum(cfg["d"]) + sum(cfg["lim"]) + len(cfg["mask"])) % 4
     if form == 1:
@@ -88,7 +93,7 @@ def replay(case) -> dict:
     model = _models()[cfg["model"]](tmpl, mask, **kw)
     gap = max(case["gap"]) / 100.0
     desc = dict(model=cfg["model"], mask=cfg["mask"], cutoff=cfg["cutoff"], tilt=cfg["tilt"], bg=cfg.get("bg", 0), box=list(shape), lim=cfg["lim"], d=cfg["d"],
-                at_edge=any(abs(a) == b for a, b in zip(cfg["d"], cfg["lim"])), reach_gap=gap, gap_exceeds_tol=gap * 100 > case["tol"])
+                at_edge=any(abs(a) == b for a, b in zip(cfg["d"], cfg["lim"])), reach_gap=gap, gap_exceeds_tol=gap * 100 > case["tol"], amp=amp)
     desc["case_key"] = f"{cfg['model']}|{cfg['mask']}|{cfg['cutoff']}|{cfg['tilt']}|{list(shape)}|{cfg['lim']}|{cfg['d']}"
     fails = []
     res = engine.api(model.align, sub, lim, quat, np.zeros(3))
@@ -101,6 +106,27 @@ def replay(case) -> dict:
     # a soft mask that truncates the displaced density legitimately lowers the score
     if (cfg["model"] in ("ZNCC", "NCC") or broadband) and cfg["mask"] == "none" and not float(res.score) >= 0.9:
         fails.append(dict(desc, clause="ScoreCloseToOne", observed=float(res.score)))
+    # Model.fit: the same result, and the sub-volume moved by -shift lies on the template ("shifting the sub-volume by -shift
+    # superimposes it on the template")
+    # (fit passes no orientation: cases whose wedge is oriented by the molecule are left to align; FSC is accurate to half a pixel only,
+    # which a voxel-level texture feels: the bar is "clearly superimposed", and never worse than before)
+    if not fails and form in (0, 2) and max(cfg["lim"]) <= 300 and cfg["tilt"] != "rotq":
+        moved, res2 = engine.api(model.fit, sub, lim)
+        if float(np.max(np.abs(np.asarray(res2.shift, dtype=np.float64) - np.asarray(res.shift, dtype=np.float64)))) > 1e-4:
+            fails.append(dict(desc, clause="FitGivesTheAlignResult", observed=[round(float(x), 3) for x in res2.shift]))
+        else:
+            core = tuple(slice(3, n - 3) for n in shape)
+
+            def pear(a, b):
+                a = np.asarray(a, dtype=np.float64)[core].ravel()
+                b = np.asarray(b, dtype=np.float64)[core].ravel()
+                a = a - a.mean()
+                b = b - b.mean()
+                return float(a @ b / np.sqrt((a @ a) * (b @ b)))
+
+            before, after = pear(sub, tmpl), pear(moved, tmpl)
+            if np.asarray(moved).shape != shape or not (after >= 0.8 and after >= before - 1e-3):
+                fails.append(dict(desc, clause="FitSuperimposesOnTemplate", before=round(before, 4), after=round(after, 4)))
     return dict(failures=fails, classes={("gap_candidate" if desc["gap_exceeds_tol"] else "reachable"): 1})
 
 
